@@ -37,4 +37,37 @@ def maxDepth : Nat → Str → Nat
     else if c = '}' then max d (maxDepth (d - 1) r)
     else max d (maxDepth d r)
 
+/-- Does the string end *inside a special character* (a group opened at brace depth 0 whose
+first character is a backslash)?  `sp` = currently inside one, `d` = brace depth (a closing
+brace at depth 0 is an ordinary character, so the depth saturates at 0). -/
+def endsInSpecial : Bool → Nat → Str → Bool
+  | sp, _, [] => sp
+  | sp, d, c :: r =>
+    if c = '{' then endsInSpecial (sp || (d = 0 && r.head? = some '\\')) (d + 1) r
+    else if c = '}' then endsInSpecial (sp && d > 1) (d - 1) r
+    else endsInSpecial sp d r
+
+/-- every special character of the string is closed -/
+def specialsClosed (s : Str) : Bool := !endsInSpecial false 0 s
+
+/-- brace depth at the end of the string when unmatched closing braces are ignored -/
+def depthSat : Nat → Str → Nat
+  | d, [] => d
+  | d, c :: r =>
+    if c = '{' then depthSat (d + 1) r
+    else if c = '}' then depthSat (d - 1) r
+    else depthSat d r
+
+/-- Text length in BibTeX's sense, independently of the scanner: braces are not counted, a
+special character (from its opening brace to its closing brace, or to the end of the string)
+counts as one, every other character counts as one.  `sp`, `d` as in `endsInSpecial`. -/
+def textLength : Bool → Nat → Str → Nat
+  | _, _, [] => 0
+  | sp, d, c :: r =>
+    if c = '{' then
+      (if !sp && (d = 0 && r.head? = some '\\') then 1 else 0)
+        + textLength (sp || (d = 0 && r.head? = some '\\')) (d + 1) r
+    else if c = '}' then textLength (sp && d > 1) (d - 1) r
+    else (if sp then 0 else 1) + textLength sp d r
+
 end Pybtex.Spec
